@@ -16,7 +16,8 @@ RULE = ("stacks = 0-4 header dictionaries (constructor headers + nested _additio
         "random letter case, including content-length, Content-TYPE and user-agent, with str / int / float / bool / None "
         "values; requests = call, notification, MultiCall batch, over TCP and Unix recording peers; block histories = "
         "every enter/leave sequence of depth <= 3 with each of the 2^k normal/exceptional exit patterns, and sequences of "
-        "sibling blocks on one proxy whose dictionaries compare equal but print differently (1/True/1.0). Oracles: a "
+        "sibling blocks on one proxy whose dictionaries compare equal but print differently (1/True/1.0); dictionaries "
+        "(constructor and block ones, empty or not) filled, changed or emptied after they were pushed. Oracles: a "
         "12-line reference merge (oldest -> newest, last writer per lower-cased name wins, str() values) against the "
         "header lines exactly as received by the raw peer; Content-Length/Content-Type single and correct; User-Agent "
         "configured unless overridden; deep snapshot of the transport's header stack before entering == after leaving. "
@@ -79,7 +80,8 @@ def check_request(ctx, req, stack, body_text, config, case, kind):
             continue
         vals = got.get(name, [])
         if not vals:
-            ctx.violate("pushed-header-missing" + (":user-agent" if name == "user-agent" else ""), case,
+            ctx.violate("pushed-header-missing" + (":user-agent" if name == "user-agent" else "")
+                        + (":dictionary-filled-after-it-was-pushed" if case.get("scenario") == "filled-after-push" else ""), case,
                         {"name": name, "received": req.headers})
         elif len(vals) > 1:
             ctx.violate("pushed-header-duplicated" + (":user-agent" if name == "user-agent" else ""), case,
@@ -93,7 +95,7 @@ def check_request(ctx, req, stack, body_text, config, case, kind):
                 key += ":case-variants"
             ctx.violate(key, case, {"name": name, "sent": vals[0], "expected": value, "stack": stack})
     # nothing else of the harness's header names may be on the wire (a header of a block that was left)
-    known = set(n.lower() for n in BASE_NAMES) | {"x-flag"}
+    known = set(n.lower() for n in BASE_NAMES) | {"x-flag"} | set(n.lower() + "-late" for n in BASE_NAMES[:4])
     stray = sorted(k for k in got if k in known and k not in merged
                    and k not in ("content-length", "content-type", "user-agent")
                    and not (k == "authorization" and case.get("credentials")))
@@ -303,6 +305,44 @@ def run(ctx):
                         pass
                     if rng.random() < 0.4:
                         send(ctx, rng, proxy, peer, history, [ctor], config, dict(case, between_blocks=True))
+                proxy("close")()
+            # 5. dictionaries filled or changed AFTER they were pushed (handed to the constructor / to the block):
+            #    the stack holds the caller's dictionaries, a request carries what they define when it is sent
+            for rep in range(ctx.pick(40, 1500)):
+                config = jsonrpclib.config.Config()
+                history = History()
+                ctor = gen_dict(rng) if rng.random() < 0.5 else {}
+                block = gen_dict(rng) if rng.random() < 0.5 else {}
+                proxy = jsonrpclib.ServerProxy(peer.url, headers=ctor, history=history, config=config)
+                case = {"family": fam, "ctor_as_given": dict(ctor), "block_as_given": dict(block),
+                        "scenario": "filled-after-push"}
+                ctx.cell(fam, "filled-after-push", "ctor-%s" % ("empty" if not ctor else "set"))
+
+                def change(d):
+                    how = rng.choice(["add", "add", "set", "del"]) if d else "add"
+                    if how == "add":
+                        d[rand_case(rng, rng.choice(BASE_NAMES[:4])) + "-Late"] = rng.choice(VALUES)
+                    elif how == "set":
+                        d[rng.choice(sorted(d))] = rng.choice(VALUES)
+                    else:
+                        del d[rng.choice(sorted(d))]
+                    return how
+                steps = []
+                try:
+                    steps.append(("ctor", change(ctor)))
+                    send(ctx, rng, proxy, peer, history, [ctor], config, dict(case, steps=list(steps), ctor_now=dict(ctor)))
+                    with proxy._additional_headers(block) as p:
+                        steps.append(("block", change(block)))
+                        if rng.random() < 0.5:
+                            steps.append(("ctor", change(ctor)))
+                        send(ctx, rng, p, peer, history, [ctor, block], config,
+                             dict(case, steps=list(steps), ctor_now=dict(ctor), block_now=dict(block)))
+                    steps.append(("left-block", None))
+                    send(ctx, rng, proxy, peer, history, [ctor], config, dict(case, steps=list(steps), ctor_now=dict(ctor)))
+                except BaseException as ex:  # noqa
+                    ctx.violate("request-raised-%s" % type(ex).__name__, case, {"raised": ex, "steps": steps})
+                ctx.case(("filled-after-push", fam, gen.trepr([case["ctor_as_given"], case["block_as_given"], steps,
+                                                                ctor, block])))
                 proxy("close")()
             ctx.exhaustive["exit patterns (normal/exceptional) of nested blocks up to depth 3"] = True
         finally:
